@@ -48,13 +48,13 @@ fn alloc_cfg(c: &RunCfg) -> AllocCfg {
 }
 
 /// One generated run.
-fn run_generated(run_seed: u64, profile: &str, steps: usize, journal: &mut Journal, want_digest: bool) -> (RunCfg, RunResult) {
+fn run_generated(run_idx: u64, run_seed: u64, profile: &str, steps: usize, journal: &mut Journal, want_digest: bool) -> (RunCfg, RunResult) {
     let mut rng = Rng::new(run_seed);
     let cfg = draw_cfg(&mut rng, profile, steps);
     let mut gen_rng = rng.split(1);
     let mut drop_rng = rng.split(2);
     alloc::begin_run(alloc_cfg(&cfg));
-    journal.reset(&J::obj().set("seed", run_seed).set("profile", profile).set("cfg", cfg_to_json(&cfg)).dump());
+    journal.reset(&J::obj().set("run", run_idx).set("seed", run_seed).set("profile", profile).set("cfg", cfg_to_json(&cfg)).dump());
     let mut w = World::new();
     let mut res = RunResult {
         ops: Vec::new(),
@@ -225,7 +225,7 @@ fn main() {
             let mut samples: Vec<J> = Vec::new();
             for i in from..to {
                 let run_seed = mix(&[seed, tag, i]);
-                let (cfg, r) = run_generated(run_seed, &profile, steps, &mut journal, emit.is_some());
+                let (cfg, r) = run_generated(i, run_seed, &profile, steps, &mut journal, emit.is_some());
                 total_steps += r.steps as u64;
                 probes.merge(&r.probes);
                 oob += r.oob_steps;
